@@ -201,6 +201,46 @@ fn main() {
     // randoms with a protocol-defined meaning (HelloRetryRequest value, downgrade sentinels) are still just randoms here
     let magic: Vec<W> = cat::magic_hellos().into_iter().filter(|w| w.buf[0] != 2 || w.buf.len() > 4 && w.lens.iter().all(|l| l.label != "dtls_length")).collect();
     sink.merge(struct_sweep(&run, &[&MSG_HANDSHAKE], &magic.iter().filter(|w| w.lens.first().map_or(false, |l| l.label == "hs_len")).cloned().collect::<Vec<_>>(), 1, &sfx, 64, &no_extra));
+    // HelloRetryRequest over the cross product version x all 65536 cipher ids x extension block (a cipher id that
+    // happens to equal a length, a block that parses as a list, ...)
+    {
+        let profiles = cat::hello_profiles();
+        let blocks: Vec<Option<Vec<u8>>> = vec![
+            None,
+            Some(vec![]),
+            Some(vec![0, 0, 0, 0]),
+            Some(vec![0, 0x33, 0, 2, 0, 0x1d]),
+            Some(vec![0, 0x2c, 0, 5, 0, 3, 0xaa, 0xbb, 0xcc]),
+            Some(profiles[8].clone()),
+            Some(vec![0xe0, 0xe1, 0xe2]),
+            // blocks that begin with a 16-bit length of their own (the enclosing length then reads as a type)
+            Some(vec![0, 0]),
+            Some(vec![0, 2, 0, 0]),
+            Some(vec![0, 4, 0xaa, 0xbb, 0xcc, 0xdd]),
+            Some(vec![0, 1, 0x55, 0, 0x17, 0, 0]),
+            Some([&[0u8, profiles[8].len() as u8][..], &profiles[8][..]].concat()),
+        ];
+        let versions = [0x7f12u16, 0x0304, 0x7f1c, 0x0303];
+        let sh = par_run(run.threads, 256, |hi, sink| {
+            for lo in 0..256u32 {
+                let cipher = ((hi as u32) << 8 | lo) as u16;
+                for &v in &versions {
+                    for b in &blocks {
+                        let w = cat::hs(6, |w| {
+                            w.u16(v).u16(cipher);
+                            if let Some(b) = b {
+                                w.block(2, "ext_len", |w| {
+                                    w.bytes(b);
+                                });
+                            }
+                        });
+                        check_case(run.prop, &MSG_HANDSHAKE, &w.buf, sink);
+                    }
+                }
+            }
+        });
+        sink.merge(sh);
+    }
     // the RFC 8446 layouts of the same message types: a decoder that also "understands" them changes what the
     // TLS 1.2 layout means for some input
     sink.merge(struct_sweep(&run, &[&MSG_HANDSHAKE], &cat::tls13_messages(), run.tier.pick(0, 1), &sfx, 64, &no_extra));
